@@ -14,6 +14,25 @@ the JSON form; Props/C09JsonBytes.lean (imported here) carries the JSON form dow
 the JSON text (`C09_json_fidelity_bytes`; gzip stays flate2's, trusted).
 The maps of a result are observed through `get?` (C09_*_line_count, …_branch_vector, …_function).
 
+Three fixes of /repo that this file follows (session 4, second wave):
+* 5a9c87e (review item 2): gcov ≥ 9 lists a line once per instance of a function group (template
+  instantiations, constructor variants) and may list several functions under one demangled name.
+  The reader now ADDS the counts (saturating), ORs the branch vectors position by position and ORs
+  the executed flags (first start line kept); before, the last entry won, so executed template code
+  was reported with count 0. `Spec.semJson` states the meaning key by key – `lineCount` is the SUM
+  over all entries of the line, clamped at 2^64-1 – independently of the reader's fold
+  (`C09_json_line_count`, `C09_json_branch_vector`, `C09_json_function`,
+  `C09_json_repeated_line_adds_up`); the former behaviour is the example `dupDoc` below.
+* 7f9b2b3: a line of the text form is decoded with `String::from_utf8_lossy` before it is split:
+  file and function names are the lossy decoding of their bytes (`C09_text_names_decoded`; valid
+  UTF-8 is kept byte for byte: `C09_text_utf8_names_unchanged`), for ALL byte strings without
+  CR/LF – the fidelity theorem no longer assumes UTF-8 names.
+* the call count of `function:` (review item 35): the property says "executed iff its call count is
+  non-zero"; the code compares the token with `0`, so a NEGATIVE count (gcov prints a wrapped
+  counter with the signed formatter it uses for `lcount:`) is executed – which is what the property
+  says; `C09_text_executed_iff_nonzero` covers signed canonical decimals. (`lcount:` alone clamps
+  negative values to 0.) Tokens gcov never prints (`00`, `+0`, `-0`) read as executed.
+
 JSON documents of later gcov versions. `C09_json_fidelity` is about the key set gcov 9 writes
 (`Doc.toJson`). gcov 13 adds `block_ids`, gcov 14 `conditions`/`calls`, and any producer may add keys
 anywhere: `C09_json_unknown_keys_irrelevant` says that keys a level does not read, inserted into any
@@ -42,27 +61,30 @@ the Rust recorded here, and the tie (every harness case runs under `catch_unwind
 * `parse_gcov`: `File::open(..).unwrap_or_else(panic!)` – reachable when the path cannot be opened,
   not by any file CONTENT; outside the model (the model starts from the bytes). `read_until(..)?` –
   I/O error ⇒ `Err(Io)`, outside the model. `remove_newline`: `l.last().unwrap()` is guarded by
-  `is_none() ⇒ break`. `str::from_utf8_unchecked`: no check, no panic (on non-UTF-8 input the
-  language calls it undefined behaviour; all later operations split at ASCII bytes and the observed
-  behaviour is byte-wise – the harness only sends valid UTF-8). `try_next!`/`try_parse!`: return
+  `is_none() ⇒ break`. `String::from_utf8_lossy`: total (since /repo 7f9b2b3; before,
+  `from_utf8_unchecked` – undefined behaviour on non-UTF-8 names, and a panic further down the
+  pipeline). `try_next!`/`try_parse!`: return
   `Err`. `vec![taken; 1]`, `BTreeMap`/`FxHashMap` inserts, `entry(..)`: cannot fail. No index
   expression, no arithmetic. After the loop `let Some(cur_file) = cur_file else { return Err(..) }`.
 * `parse_gcov_gz`: `File::open` as above. `serde_json::from_reader(gz).map_err(..)?` – every gzip,
   JSON-syntax, recursion-limit (128) and schema error is `Err(InvalidData)`.
   `deserialize_counter`: `n.as_f64().unwrap()` is under `if n.is_f64()`, for which `as_f64` is
   `Some`; `value as u64` is a saturating cast; `n.as_u64()` is matched. The loops only `drain`,
-  `insert` and compare (`b.count > 0`): no index, no arithmetic, no `unwrap`.
+  `entry`, `saturating_add`, compare (`b.count > 0`) and index `all[i]` under `i < all.len()`: no
+  other index, no unchecked arithmetic, no `unwrap`.
 -/
 import GrcovModel.Lemmas.Gcov
 import GrcovModel.Props.C09JsonBytes
 namespace Grcov.Props.C09
 open Grcov AList Grcov.Gcov Grcov.Gcov.Spec
+open Grcov.Lcov (utf8Lossy validUtf8)
 
 /-! ## Text form -/
 
 /-- Fidelity, text form: for every well-formed report (any number of sections, any records in any
-order, any line terminators), reading its rendering gives exactly what the report says — one entry
-per section that lists a line, in file order. -/
+order, any line terminators, names that are ANY byte strings without CR/LF – valid UTF-8 or not),
+reading its rendering gives exactly what the report says — one entry per section that lists a
+line, in file order, names decoded lossily. -/
 theorem C09_text_fidelity (r : Report) (h : r.WF) : Text.parse r.render = .ok (semText r) :=
   parse_render r h
 
@@ -73,10 +95,40 @@ theorem C09_text_record (a : Text.Acc) (r : Rec) (crs : Nat) (h : r.WF) :
   procLine_rec a r crs h
 
 /-- A `file:` line closes the section being read (reported iff it has a name and ≥ 1 line) and
-opens the next; the name is the whole rest of the line (colons and commas included). -/
+opens the next; the name is the whole rest of the line (colons and commas included), decoded with
+`from_utf8_lossy`. -/
 theorem C09_text_file_record (a : Text.Acc) (name : Bytes) (crs : Nat) (h : noEol name) :
-    Text.procLine a (Text.kFile ++ [58] ++ name ++ eol crs) = .run (Text.onFile a name) :=
+    Text.procLine a (Text.kFile ++ [58] ++ name ++ eol crs) = .run (Text.onFile a (utf8Lossy name)) :=
   procLine_file a name crs h
+
+/-- Names (since /repo 7f9b2b3): the file name of a reported section and the name of a function are
+`String::from_utf8_lossy` of the bytes in the file – every maximal ill-formed sequence becomes
+U+FFFD, nothing else changes. -/
+theorem C09_text_names_decoded :
+    (∀ s : FileSec, ∀ r ∈ semSec s, r.1 = utf8Lossy s.name)
+    ∧ (∀ (st : Dec) (c n : Bytes), functionOf (.function st c n)
+        = some (utf8Lossy n, ⟨st.val, decide (c ≠ [48])⟩)) := by
+  refine ⟨?_, fun _ _ _ => rfl⟩
+  intro s r hr
+  simp only [semSec] at hr
+  split at hr
+  · simp at hr
+  · simp only [Option.mem_def, Option.some.injEq] at hr; rw [← hr]
+
+/-- … and a name that is well-formed UTF-8 (RFC 3629: no overlong form, no surrogate, nothing
+above U+10FFFF) is kept byte for byte; decoding is idempotent. -/
+theorem C09_text_utf8_names_unchanged (name : Bytes) :
+    (validUtf8 name = true → utf8Lossy name = name)
+    ∧ utf8Lossy (utf8Lossy name) = utf8Lossy name
+    ∧ validUtf8 (utf8Lossy name) = true :=
+  ⟨Lcov.utf8Lossy_of_valid name, Lcov.utf8Lossy_idem name, Lcov.validUtf8_utf8Lossy name⟩
+
+/-- The decoding happens on the whole line, before the line is split: an ASCII byte (':' ',' and
+every digit) is a boundary of the decoding, so separators stay where they were and each piece of
+free text is decoded on its own. -/
+theorem C09_text_decoding_keeps_separators (a : Bytes) (c : Nat) (b : Bytes) (hc : c < 128) :
+    utf8Lossy (a ++ c :: b) = utf8Lossy a ++ c :: utf8Lossy b :=
+  Lossy.lossy_append_ascii a c b hc
 
 /-- A negative count (a '-' followed by anything) is read as 0. -/
 theorem C09_text_negative_is_zero (a : Text.Acc) (l : Dec) (rest : Bytes) (crs : Nat)
@@ -118,22 +170,36 @@ theorem C09_text_branch_vector (rs : List Rec) (l : Nat) :
         if v.isEmpty then none else some v :=
   get?_groupPush _ l
 
-/-- A function is the last `function` record with its name: start line as written, executed iff
-the call-count token is not `0`. The name is everything after the second comma. -/
+/-- A function is the last `function` record with its (decoded) name: start line as written,
+executed iff the call-count token is not `0`. The name is everything after the second comma. -/
 theorem C09_text_function (rs : List Rec) (n : Name) :
     get? (secFunctions rs) n = get? (rs.filterMap functionOf).reverse n :=
   get?_ofList _ n
 
-/-- For a call count written canonically (digits, no leading zero) "token ≠ `0`" is "count ≠ 0". -/
-theorem C09_text_executed_iff_nonzero (ds : Bytes) (hd : ∀ b ∈ ds, Text.isDigit b = true)
-    (hc : ds = [48] ∨ (ds ≠ [] ∧ ds.head? ≠ some 48)) : ds ≠ [48] ↔ valOf ds ≠ 0 :=
-  canonical_zero ds hd hc
+/-- For a call count written the way gcov's formatter writes a signed 64-bit number – an optional
+'-' and canonical digits (no leading zero; `0` unsigned) – "token ≠ `0`" is "count ≠ 0": a function
+is executed iff its call count is non-zero, NEGATIVE counts (a wrapped counter) included; only
+`lcount:` clamps negative values to 0. -/
+theorem C09_text_executed_iff_nonzero (neg : Bool) (ds : Bytes)
+    (hd : ∀ b ∈ ds, Text.isDigit b = true)
+    (hc : (ds = [48] ∧ neg = false) ∨ (ds ≠ [] ∧ ds.head? ≠ some 48)) :
+    (if neg then 45 :: ds else ds) ≠ [48] ↔ valOf ds ≠ 0 := by
+  cases neg with
+  | false => exact canonical_zero ds hd (hc.imp And.left id)
+  | true =>
+    have hr : ds ≠ [] ∧ ds.head? ≠ some 48 := by
+      rcases hc with ⟨_, h⟩ | h
+      · cases h
+      · exact h
+    have h48 : ds ≠ [48] := fun e => hr.2 (by rw [e]; rfl)
+    have := (canonical_zero ds hd (.inr hr)).mp h48
+    simp [this]
 
-/-- Exactly the sections that list at least one line are reported, once each, in file order; a
-`file:` section without `lcount` is omitted. -/
+/-- Exactly the sections that list at least one line are reported, once each, in file order (under
+their decoded names); a `file:` section without `lcount` is omitted. -/
 theorem C09_text_reported_files (r : Report) (h : r.WF) :
     ∃ rs, Text.parse r.render = .ok rs
-      ∧ rs.map (·.1) = (r.secs.filter hasLcount).map (·.name) :=
+      ∧ rs.map (·.1) = (r.secs.filter hasLcount).map (fun s => utf8Lossy s.name) :=
   ⟨semText r, parse_render r h, semText_names r⟩
 
 /-- Every reported map – lines, branches, functions – has unique keys (a `CovResult` by
@@ -167,8 +233,9 @@ TRUE BY CONSTRUCTION: no program point of `Text.parse` produces `Out.panic` (the
 for the driver protocol), because the reading of `parse_gcov` recorded in the header of this file
 found no reachable panic site for any file content (lines read without any `file:` record are
 `Err(InvalidRecord)` since 9e71186). What carries the claim over to the Rust is that reading plus
-the tie (every case runs under `catch_unwind`), not this proof. Outside the model: opening the
-file (`File::open(..).unwrap_or_else(panic!)`), I/O errors, `from_utf8_unchecked` on non-UTF-8. -/
+the tie (every case runs under `catch_unwind`; since 7f9b2b3 the generators send non-UTF-8 bytes
+too), not this proof. Outside the model: opening the file
+(`File::open(..).unwrap_or_else(panic!)`), I/O errors. -/
 theorem C09_text_never_panics (bs : Bytes) (site : String) : Text.parse bs ≠ .panic site :=
   parse_ne_panic bs site
 
@@ -206,23 +273,66 @@ theorem C09_json_never_panics :
     ∧ (∀ j : Json, Json.decDoc j = none → Json.toResults j = .err "InvalidData") :=
   ⟨JsonL.fromReader_ne_panic, JsonL.toResults_ne_panic, JsonL.toResults_err⟩
 
-/-- Line counts (the `lines` map of `semFile`): the count of the last entry of `lines` with that
-line number. -/
+/-- Line counts (review item 2, /repo 5a9c87e): the count of a listed line is the SUM of the counts
+of ALL entries of `lines` with that line number (gcov ≥ 9 writes one entry per template
+instantiation / constructor variant), clamped at 2^64-1 and never wrapped; a line no entry lists
+has no count. The right-hand side does not mention the reader's fold. -/
 theorem C09_json_line_count (f : FileS) (l : Nat) :
-    get? (ofList (fileLinePairs f)) l = get? (fileLinePairs f).reverse l :=
-  get?_ofList _ l
+    get? (semLines f) l
+      = if l ∈ f.lines.map (·.lineNumber) then
+          some (min ((f.lines.filter fun e => e.lineNumber = l).map (·.count.val)).sum U64MAX)
+        else none :=
+  JsonL.get?_semLines f l
 
-/-- Branch outcomes: the vector of the last entry with that line number that has branches, in the
-order of its `branches` array, each taken iff its count is positive. -/
+/-- … in particular a line listed twice, executed in one instance only, is executed: entries
+`(l, c₁)`, `(l, c₂)` give `min (c₁ + c₂) (2^64-1)`, in either order (before 5a9c87e: the last
+entry's count, e.g. 0). -/
+theorem C09_json_repeated_line_adds_up (file : Bytes) (fns : List FnS) (l : Nat) (e₁ e₂ : LineS)
+    (h₁ : e₁.lineNumber = l) (h₂ : e₂.lineNumber = l) :
+    get? (semLines ⟨file, fns, [e₁, e₂]⟩) l = some (min (e₁.count.val + e₂.count.val) U64MAX)
+    ∧ get? (semLines ⟨file, fns, [e₂, e₁]⟩) l = some (min (e₁.count.val + e₂.count.val) U64MAX) := by
+  constructor <;>
+    simp [JsonL.get?_semLines, lineCount, entriesOf, h₁, h₂, Nat.add_comm]
+
+/-- Branch outcomes (/repo 5a9c87e): a line has a vector iff some entry of it has branches; the
+vector is as long as the longest `branches` array among the entries of the line, and slot `i` is
+taken iff SOME entry has a positive count at position `i` (position-wise OR). -/
 theorem C09_json_branch_vector (f : FileS) (l : Nat) :
-    get? (ofList (fileBranchPairs f)) l = get? (fileBranchPairs f).reverse l :=
-  get?_ofList _ l
+    (get? (semBranches f) l
+      = if l ∈ (f.lines.filter fun e => !e.branches.isEmpty).map (·.lineNumber)
+        then some (lineBranches f l) else none)
+    ∧ (lineBranches f l).length
+        = (((f.lines.filter fun e => e.lineNumber = l)).map (·.branches.length)).foldr max 0
+    ∧ ∀ i, (lineBranches f l).getD i false = true
+        ↔ ∃ e ∈ f.lines, e.lineNumber = l ∧ ∃ b, e.branches[i]? = some b ∧ b.count.val > 0 :=
+  ⟨JsonL.get?_semBranches f l, JsonL.lineBranches_length f l, JsonL.lineBranches_taken f l⟩
 
-/-- Functions: keyed by demangled name, start line as written, executed iff the execution count
-is positive. -/
+/-- Functions (/repo 5a9c87e): keyed by demangled name; a function is reported iff some entry has
+that name, executed iff SOME entry with that name has a positive execution count (complete and
+base-object constructors share a demangled name), and starts at the start line of the first such
+entry. -/
 theorem C09_json_function (f : FileS) (n : Name) :
-    get? (ofList (fileFunctionPairs f)) n = get? (fileFunctionPairs f).reverse n :=
-  get?_ofList _ n
+    (get? (semFunctions f) n
+      = if n ∈ f.functions.map (·.demangledName) then some ⟨fnStart f n, fnExecuted f n⟩ else none)
+    ∧ (fnExecuted f n = true
+        ↔ ∃ g ∈ f.functions, g.demangledName = n ∧ g.executionCount.val > 0)
+    ∧ fnStart f n
+        = (((f.functions.find? fun g => g.demangledName = n)).map (·.startLine)).getD 0 :=
+  ⟨JsonL.get?_semFunctions f n, JsonL.fnExecuted_iff f n, JsonL.fnStart_eq f n⟩
+
+/-- The maps of a JSON result have unique keys, every count fits 64 bits, and a file without
+repeated entries reads exactly as before the fix (each line its own count). -/
+theorem C09_json_maps_wellformed (f : FileS) :
+    NodupKeys (semLines f) ∧ NodupKeys (semBranches f) ∧ NodupKeys (semFunctions f)
+    ∧ ∀ kv ∈ semLines f, kv.2 ≤ U64MAX := by
+  refine ⟨?_, ?_, ?_, ?_⟩
+  · unfold NodupKeys semLines; rw [JsonL.keys_tabulate]; exact JsonL.nodup_firstKeys _
+  · unfold NodupKeys semBranches; rw [JsonL.keys_tabulate]; exact JsonL.nodup_firstKeys _
+  · unfold NodupKeys semFunctions; rw [JsonL.keys_tabulate]; exact JsonL.nodup_firstKeys _
+  · intro kv hkv
+    unfold semLines at hkv
+    obtain ⟨l, _, rfl⟩ := List.mem_map.mp hkv
+    exact Nat.min_le_right _ _
 
 /-- Exactly the files that list at least one line are reported, once each, in document order. -/
 theorem C09_json_reported_files (d : Doc) (h : d.WF) :
@@ -365,6 +475,70 @@ example : Json.toResults exDoc.toJson
             { lines := [(3, 7), (4, 18446744073709549568)], branches := [(3, [false, true])],
               functions := [([102, 40, 105, 110, 116, 44, 32, 99, 104, 97, 114, 41], ⟨3, true⟩)] })] := by
   decide +kernel
+
+/-- review item 2 (`tools/review_probes2/gcov-jacoco/template_dup_lines.cpp`, gcov 12): line 3 of a
+template is listed once per instantiation – `pick<long>` ran 5 times (branch counts 2, 3),
+`pick<int>` never; then an entry without branches; the functions `S::S()` (complete and base object
+constructor) share their demangled name, only the second ran. Before /repo 5a9c87e the result was
+count 0, branches [false, false], `S::S()` not executed. -/
+def dupDoc : Doc :=
+  { formatVersion := [49], gccVersion := [49, 50], cwd := none, dataFile := [100]
+    files :=
+      [ { file := [116, 46, 99, 112, 112]
+          functions :=
+            [ ⟨[67, 49], [83, 58, 58, 83, 40, 41], 9, 1, 9, 8, 2, 0, .int 0⟩,
+              ⟨[67, 50], [83, 58, 58, 83, 40, 41], 10, 1, 10, 8, 2, 2, .int 4⟩ ]
+          lines :=
+            [ ⟨3, some (some [112, 105, 99, 107, 60, 108, 111, 110, 103, 62]), .int 5, false,
+                [⟨.int 2, false, true⟩, ⟨.int 3, false, false⟩]⟩,
+              ⟨3, some (some [112, 105, 99, 107, 60, 105, 110, 116, 62]), .int 0, false,
+                [⟨.int 0, false, true⟩, ⟨.int 0, false, false⟩, ⟨.int 1, true, false⟩]⟩,
+              ⟨3, none, .int 18446744073709551615, false, []⟩,
+              ⟨4, none, .int 1, false, []⟩ ] } ] }
+
+example : dupDoc.WF := by
+  intro f hf
+  simp only [dupDoc, List.mem_cons, List.not_mem_nil, or_false] at hf
+  subst hf
+  simp [FileS.WF, FnS.WF, LineS.WF, BrS.WF, Counter.WF, U32MAX, U64MAX]
+
+/-- the sum saturates at 2^64-1, the vector has the length of the longer array, the function keeps
+the first start line and is executed -/
+example : Json.toResults dupDoc.toJson
+    = .ok [([116, 46, 99, 112, 112],
+            { lines := [(3, U64MAX), (4, 1)], branches := [(3, [true, true, true])],
+              functions := [([83, 58, 58, 83, 40, 41], ⟨9, true⟩)] })]
+    ∧ semJson dupDoc = [([116, 46, 99, 112, 112],
+            { lines := [(3, U64MAX), (4, 1)], branches := [(3, [true, true, true])],
+              functions := [([83, 58, 58, 83, 40, 41], ⟨9, true⟩)] })] := by
+  decide +kernel
+
+/-- /repo 7f9b2b3, review item 10 (`probe3_nonutf8_gcov_name.rs`): `file:a<FF>.c⏎function:1,-5,f<C3>⏎
+lcount:1,1⏎` – the ill-formed bytes FF and C3 become U+FFFD (EF BF BD) in both names, the negative
+call count is executed, and the report is well-formed in the sense of `C09_text_fidelity` -/
+def exLossy : Report :=
+  { pre := []
+    secs := [ { name := [97, 255, 46, 99], crs := 0
+                recs := [⟨.function ⟨false, [49]⟩ [45, 53] [102, 195], 0⟩,
+                         ⟨.lcount ⟨false, [49]⟩ (.num ⟨false, [49]⟩), 0⟩] } ] }
+
+example : exLossy.WF := by
+  refine ⟨fun l hl => by simp [exLossy] at hl, ?_⟩
+  intro s hs
+  simp only [exLossy, List.mem_cons, List.not_mem_nil, or_false] at hs
+  subst hs
+  simp [FileSec.WF, Rec.WF, Dec.WF, Dec.val, valOf, valFrom, noEol, Text.isEol, Text.isDigit,
+    U32MAX, U64MAX]
+
+example : Text.parse exLossy.render
+    = .ok [([97, 239, 191, 189, 46, 99],
+            { lines := [(1, 1)], functions := [([102, 239, 191, 189], ⟨1, true⟩)] })] := by
+  decide +kernel
+
+/-- the hypotheses of `C09_text_executed_iff_nonzero` on `-2534`, `0` and `7` -/
+example : (∀ b ∈ [50, 53, 51, 52], Text.isDigit b = true)
+    ∧ ((([50, 53, 51, 52] : Bytes) = [48] ∧ true = false) ∨ (([50, 53, 51, 52] : Bytes) ≠ [] ∧ ([50, 53, 51, 52] : Bytes).head? ≠ some 48))
+    ∧ (([48] : Bytes) = [48] ∧ false = false) := by decide
 
 /-- gcov 8: `file:a.c⏎lcount:10,1,0⏎` is `Err(Parse)`; `function:10,12,0,foo` is read as the function
 `0,foo` starting at line 10, executed (the token `12` is not `0`) -/
